@@ -10,6 +10,7 @@ package main
 
 import (
 	"fmt"
+	"runtime"
 	"strconv"
 	"strings"
 	"sync"
@@ -73,9 +74,19 @@ func raceEntries() []raceEntry {
 // the global level, or a setter that passes through a third value, shows up as a leak or a loss.
 func raceGlobalLevel(c *Ctx) {
 	const emitters = 4
-	perEntry := 1500
+	// every emitter makes at least minPasses passes over the entries and goes on (up to maxPasses) until the
+	// emitters together have seen the global level differ between two consecutive passes needSeen times,
+	// so that a run in which the alternating goroutine was not on a CPU at the same time (a loaded machine)
+	// is prolonged instead of passing for a concurrent one.  The verdicts use the numbers of calls actually
+	// made.
+	minPasses := 1500
 	if c.Thorough() {
-		perEntry = 20000
+		minPasses = 20000
+	}
+	maxPasses, needSeen := 8*minPasses, minPasses
+	if runtime.GOMAXPROCS(0) < 2 || runtime.NumCPU() < 2 {
+		maxPasses = minPasses
+		c.Note("concurrent global level sweep: a single CPU, the alternating goroutine and the emitters only interleave at preemption points")
 	}
 	entries := raceEntries()
 	globals := []int{-1, 1, 3, 7}
@@ -103,17 +114,24 @@ func raceGlobalLevel(c *Ctx) {
 				tg.Add(1)
 				go func() {
 					defer tg.Done()
-					for atomic.LoadInt32(&stop) == 0 {
-						zerolog.SetGlobalLevel(zerolog.Level(B))
-						zerolog.SetGlobalLevel(zerolog.Level(A))
+					for i := 0; atomic.LoadInt32(&stop) == 0; i++ {
+						if i&1 == 0 {
+							zerolog.SetGlobalLevel(zerolog.Level(B))
+						} else {
+							zerolog.SetGlobalLevel(zerolog.Level(A))
+						}
 					}
 				}()
-				for g := 0; g < emitters; g++ {
+				var seenAll int64
+				passes := make([]int64, emitters)
+								for g := 0; g < emitters; g++ {
 					wg.Add(1)
 					go func(g int) {
 						defer wg.Done()
 						l := lg
-						for i := 0; i < perEntry; i++ {
+						last := zerolog.GlobalLevel()
+						n := 0
+						for n < minPasses || (atomic.LoadInt64(&seenAll) < int64(needSeen) && n < maxPasses) {
 							for k := range entries {
 								k := (k + g) % len(entries)
 								en := &entries[k]
@@ -122,15 +140,34 @@ func raceGlobalLevel(c *Ctx) {
 									Object("o", raceObj{&objs[k]}).
 									MsgFunc(func() string { atomic.AddInt64(&msgfuncs[k], 1); return "" })
 							}
+							n++
+							if cur := zerolog.GlobalLevel(); cur != last {
+								last = cur
+								atomic.AddInt64(&seenAll, 1)
+							}
 						}
+						passes[g] = int64(n)
 					}(g)
 				}
 				wg.Wait()
 				atomic.StoreInt32(&stop, 1)
 				tg.Wait()
+				var sent int64
+				for g := 0; g < emitters; g++ {
+					sent += passes[g]
+				}
+				if sent > int64(emitters*minPasses) {
+					c.Hist("concurrent global level: run length", "prolonged")
+				} else {
+					c.Hist("concurrent global level: run length", "minimal")
+				}
+				if seenAll < int64(needSeen) {
+					c.Hist("concurrent global level: alternations seen by the emitters", "fewer than wanted")
+				} else {
+					c.Hist("concurrent global level: alternations seen by the emitters", "enough")
+				}
 				runs++
 				c.Count(fmt.Sprintf("race L=%d A=%d B=%d", L, A, B), true)
-				sent := int64(emitters * perEntry)
 				// per level: how many calls were made (several entries share a level)
 				callsAt := map[int]int64{}
 				for _, en := range entries {
@@ -138,7 +175,7 @@ func raceGlobalLevel(c *Ctx) {
 				}
 				base := func(en raceEntry) map[string]interface{} {
 					return map[string]interface{}{"logger_level": L, "global_level_alternates_between": []int{A, B}, "entry": en.name, "event_level": en.lvl,
-						"emitter_goroutines": emitters, "calls_per_goroutine": perEntry,
+						"emitter_goroutines": emitters, "calls_in_all": sent,
 						"statement": "l." + en.name + ".Func(f).Object(\"o\", m).MsgFunc(g), while another goroutine loops SetGlobalLevel(B); SetGlobalLevel(A)"}
 				}
 				if n := atomic.LoadInt64(&w.plain); n != 0 {
@@ -191,7 +228,7 @@ func raceGlobalLevel(c *Ctx) {
 						c.Violate(Violation{Key: "writelevel-wrong", Monitor: "gate-concurrent-global", Desc: fmt.Sprintf("WriteLevel received level %d, which no event had", lv), Case: map[string]interface{}{"logger_level": L, "global_level_alternates_between": []int{A, B}}})
 					}
 				}
-				c.Res.Evaluations += len(entries) * emitters * perEntry
+				c.Res.Evaluations += len(entries) * int(sent)
 			}
 		}
 	}
